@@ -10,6 +10,8 @@
                   the missing-data equations), every k ≥ 1, k+m ≤ 32.
 -/
 import LecProofs.Instances
+import LecProofs.XorContracts
+import LecProofs.XorTablesOK
 import LecGen
 namespace LecProps.C03
 open Lec
@@ -43,6 +45,22 @@ theorem fidelity_rs (env : Env) (k m ct : Nat) (hk : 1 ≤ k) (hkm : k + m ≤ 3
     (blockSize_even _ _ hk rfl) (rs_frontOK env k m ct data.length hk hkm hct hlv hl0 hlen) henc hsub
     hmiss hmiss dest hd
 
+theorem fidelity_xor (env : Env) (k m hd ct : Nat) (T : XorTable)
+    (hT : LecGen.xorTableFor hd m k = some T) (hct : ct < 256)
+    (hlv : env.libver < 2 ^ 32) (hl0 : env.libver ≠ 0)
+    (data : Bytes) (hlen : data.length < 2 ^ 31 - 2 ^ 12) (enc frags : List Bytes)
+    (henc : encode env (xorBackend T) (xorInst k m ct) data = .ok enc)
+    (hsub : ∀ f ∈ frags, f ∈ enc) (hmiss : (missingOfStripe enc frags).length < hd)
+    (dest : Nat) (hd' : dest < k + m) :
+    reconstruct env (xorBackend T) (xorInst k m ct) frags
+        (80 + blockSize (xorInst k m ct) data.length) dest = .ok (enc.getD dest []) := by
+  obtain ⟨hmem, rfl, rfl, rfl⟩ := XorCheck.tableFor_fields hT
+  have hshape : xorShapeOK T.k T.m T.hd = true := by rw [xorTables_whitelist, hT]; rfl
+  obtain ⟨hE, hD, _, h1, h2⟩ := xor_contracts_for hT
+  exact fidelity env _ (xorInst T.k T.m ct) data enc frags hE hD trivial
+    (xor_frontOK env T.k T.m T.hd ct data.length hshape hct hlv hl0 hlen) henc hsub hmiss
+    (by simp only [xorInst]; omega) dest hd'
+
 /-- non-vacuity: (2,1), the parity fragment rebuilt from the two data fragments is identical. -/
 example :
     (let env : Env := { libver := 0x010604, legacy := false }
@@ -57,4 +75,5 @@ example :
 #print axioms fidelity
 #print axioms out_of_range
 #print axioms fidelity_rs
+#print axioms fidelity_xor
 end LecProps.C03
